@@ -871,7 +871,11 @@ impl Rasn {
             ASN1Value::Boolean(b) => Ok(b.to_token_stream()),
             ASN1Value::Integer(i) => Ok(Literal::i128_unsuffixed(*i).to_token_stream()),
             ASN1Value::String(s) => Ok(s.to_token_stream()),
-            ASN1Value::Real(r) => Ok(r.to_token_stream()),
+            ASN1Value::Real(r) if r.is_finite() => Ok(r.to_token_stream()),
+            ASN1Value::Real(_) => Err(error!(
+                Unsupported,
+                "The real value exceeds the range of a 64-bit floating point number."
+            )),
             ASN1Value::BitStringNamedBits(_) => Err(GeneratorError {
                 top_level_declaration: None,
                 details: "Named bits should be resolved by this point!".into(),
